@@ -83,6 +83,19 @@ func (s *State) heapArr(t types.Type, l Leaf, slice bool) (string, *Term) {
 	a := Const("H0:"+key, sortS)
 	s.Heap[key] = a
 	s.HeapTypes[key] = heapKeyInfo{t, l, slice}
+	if l.Ref {
+		// well-formed initial heap: every stored reference points to an object that already exists
+		base := Const("ref:base", SInt)
+		r := Bound("r", SInt)
+		if slice {
+			j := Bound("j", SInt)
+			e := Select(Select(a, r), j)
+			s.PC = append(s.PC, Forall([]*Term{r, j}, And(Ge(e, Num(0)), Lt(e, base)), []*Term{e}))
+		} else {
+			e := Select(a, r)
+			s.PC = append(s.PC, Forall([]*Term{r}, And(Ge(e, Num(0)), Lt(e, base)), []*Term{e}))
+		}
+	}
 	return key, a
 }
 
@@ -102,7 +115,7 @@ func (s *State) setHeap(key string, arr *Term) {
 func (s *State) loadObj(root types.Type, ref *Term, prefix string, t types.Type) *Val {
 	var ls []*Term
 	for _, l := range flatten(t) {
-		_, arr := s.heapArr(root, Leaf{prefix + l.Path, l.Sort}, false)
+		_, arr := s.heapArr(root, Leaf{prefix + l.Path, l.Sort, l.Ref}, false)
 		ls = append(ls, Select(arr, ref))
 	}
 	return mkVal(t, &ls)
@@ -118,7 +131,7 @@ func (s *State) storeObj(root types.Type, ref *Term, prefix string, v *Val) erro
 		if ls[i] == nil {
 			return fmt.Errorf("store of an interior/local pointer into the heap is not modelled")
 		}
-		key, arr := s.heapArr(root, Leaf{prefix + l.Path, l.Sort}, false)
+		key, arr := s.heapArr(root, Leaf{prefix + l.Path, l.Sort, l.Ref}, false)
 		s.setHeap(key, Store(arr, ref, ls[i]))
 	}
 	return nil
@@ -127,7 +140,7 @@ func (s *State) storeObj(root types.Type, ref *Term, prefix string, v *Val) erro
 func (s *State) loadElem(elem types.Type, arr, idx *Term, prefix string, t types.Type) *Val {
 	var ls []*Term
 	for _, l := range flatten(t) {
-		_, h := s.heapArr(elem, Leaf{prefix + l.Path, l.Sort}, true)
+		_, h := s.heapArr(elem, Leaf{prefix + l.Path, l.Sort, l.Ref}, true)
 		ls = append(ls, Select(Select(h, arr), idx))
 	}
 	return mkVal(t, &ls)
@@ -140,7 +153,7 @@ func (s *State) storeElem(elem types.Type, arr, idx *Term, prefix string, v *Val
 		if ls[i] == nil {
 			return fmt.Errorf("store of an interior/local pointer into a slice is not modelled")
 		}
-		key, h := s.heapArr(elem, Leaf{prefix + l.Path, l.Sort}, true)
+		key, h := s.heapArr(elem, Leaf{prefix + l.Path, l.Sort, l.Ref}, true)
 		s.setHeap(key, Store(h, arr, Store(Select(h, arr), idx, ls[i])))
 	}
 	return nil
